@@ -15,6 +15,15 @@ ENTRIES = [
     "splines::spline::PPSpline::<T>::csolve",
     # loading from JSON text
     "json::JSON::from_json", "json::json_py::from_json_py",
+    # the same, as a Python caller reaches them (the pyo3 wrappers return PyResult: an abort inside one is a crash of the interpreter, not an exception)
+    "dual::dual_py::<impl dual::dual::Dual>::new_py", "dual::dual_py::<impl dual::dual::Dual2>::new_py",
+    "dual::dual_py::<impl dual::dual::Dual>::vars_from", "dual::dual_py::<impl dual::dual::Dual2>::vars_from",
+    "fx::rates_py::<impl fx::rates::ccy::Ccy>::new_py", "fx::rates_py::<impl fx::rates::fxrate::FXRate>::new_py", "fx::rates_py::<impl fx::rates::FXRates>::new_py",
+    "fx::rates_py::<impl fx::rates::FXRates>::update_py", "fx::rates_py::<impl fx::rates::FXRates>::set_ad_order_py",
+    "calendars::calendar_py::<impl calendars::calendar::NamedCal>::new_py", "calendars::calendar_py::get_calendar_by_name_py",
+    "splines::spline_py::<impl splines::spline::PPSplineF64>::csolve", "splines::spline_py::<impl splines::spline::PPSplineDual>::csolve", "splines::spline_py::<impl splines::spline::PPSplineDual2>::csolve",
+] + ["calendars::calendar_py::<impl calendars::calendar::%s>::%s_py" % (t_, m_) for t_ in ("Cal", "UnionCal", "NamedCal")
+     for m_ in ("add_days", "add_bus_days", "add_months", "roll", "lag", "bus_date_range")] + [
     # total date arithmetic
     "calendars::dateroll::DateRoll::add_days", "calendars::dateroll::DateRoll::lag",
     "calendars::dateroll::DateRoll::add_months", "calendars::dateroll::DateRoll::roll",
